@@ -187,7 +187,7 @@ class Ctx:
         path = REPLAYS / f"{self.pid}-{h}.json"
         if len(self.violations) < 25:       # replay files for the first 25 only; the rest are counted
             with open(path, "w") as f:
-                json.dump(jsonable(dict(property=self.pid, key=key, tier=self.tier, seed=self.seed, **detail)), f, indent=1)
+                json.dump(jsonable(dict(property=self.pid, key=key, tier=self.tier, seed=self.seed, detail=detail)), f, indent=1)
         self.violations.append(dict(key=key, replay=str(path)))
         if len(self.violations) <= 25:
             print(f"VIOLATION property={self.pid} replay={path}", flush=True)
